@@ -361,6 +361,13 @@ def r_unordered(ctx, model):
                           found=f"{consumer}({src(node)[:70]})", explanation=f"{q} hands the items of an unordered collection ({desc}), in hash order, to {consumer}: sums of "
                           f"floating-point terms, lists and joined strings then depend on the interpreter's hash seed (PYTHONHASHSEED) in their last digits or their order",
                           instance=f"{mname}:{q}:{desc}")
+        from ..effects import sequences_in_set_order
+        for q, node, desc in sequences_in_set_order(mod, modsets.get(mname, ()), psets):
+            n += 1
+            ctx.violation(f"{q}:{desc}:sequence", Where(mod.rel, q, node.lineno), expected="sorted(<set>), or the original sequence with repeats dropped in first-occurrence order",
+                          found=src(node)[:80], explanation=f"{q} turns an unordered collection ({desc}) into a sequence: its order is the hash order of the members, which changes with "
+                          f"PYTHONHASHSEED for strings and for objects hashed through strings (sympy expressions); the rows of a matrix built from it, the terms of a sum, the lines of a file "
+                          f"come in another order in another interpreter, and least-squares solutions and floating-point sums differ in their last digits", instance=f"{mname}:{q}:{desc}:sequence")
         for q, loop, desc in unordered_loops(mod, modsets.get(mname, ()), psets):
             n += 1
             ok, why = commutative_body(loop, mod.funcs.get(q))
